@@ -326,6 +326,8 @@ def plsr_predicates(p, r):
     if st == "ok" and isinstance(trxy, tuple) and len(trxy) == 2:
         if not close(trxy[0], T, 1e-8) or not close(trxy[1], np.asarray(r.Y_factors[0]), 1e-8):
             bad.append(("C19_plsr_transform_train", "transform(X_train, Y_train) != (fitted X scores, fitted Y scores)"))
+    else:
+        bad.append(("C19_plsr_transform_train", f"transform(X_train, Y_train) did not return a pair of score matrices after a successful fit ({st}: {str(trxy)[:120]})"))
     st, base = call(r.predict, Xn.copy())
     if st != "ok":
         bad.append(("C19_plsr_predict", f"predict raised after a successful fit: {base}"))
@@ -852,7 +854,8 @@ def plsr_seq_program(rng):
            ("predict", "B"),
            ("set", {"n_components": kA - 1}), ("transform_train", "A"), ("predict", "A"), ("transform_xy", "A"),
            ("set", {"n_components": kA + 1}), ("transform", "A"), ("set", {"n_components": kA}), ("predict", "A"),
-           ("fit_bad", "A", rng.choice(["uncoupled", "vectorX", "Y3d"])), ("predict", "A"),
+           ("fit_bad", "B", "Y3d"), ("predict", "A"), ("transform_xy", "A"), ("fit_bad", "B", "uncoupled"), ("predict", "A"),
+           ("fit_bad", "B", "vectorX"), ("predict", "A"), ("transform_train", "A"),
            ("set", {"n_iter_max": 0}), ("fit", "B"), ("predict", "B"), ("transform", "B"), ("predict", "A"),
            ("set", {"n_iter_max": rng.randint(1, 3), "n_components": rng.randint(1, B["cmax"])}), ("fit_transform", "B"), ("predict", "B"), ("transform_xy", "B"),
            ("transform_bad_y", "B", rng.choice(["Y3d", "cols"]))]
@@ -961,6 +964,563 @@ def seq_eval(p):
     return plsr_seq_case(prog) + (prog,)
 
 
+# ----------------------------------------------------------------------------- source tie: Python source -> Gallina (ast)
+import ast as _ast
+
+
+class Untranslatable(Exception):
+    pass
+
+
+def _src_class(path, cls):
+    tree = _ast.parse(open(path).read())
+    for n in tree.body:
+        if isinstance(n, _ast.ClassDef) and n.name == cls:
+            return {f.name: f for f in n.body if isinstance(f, _ast.FunctionDef)}
+    raise Untranslatable(f"class {cls} not found in {path}")
+
+
+def _is_self_attr(e, name=None):
+    return isinstance(e, _ast.Attribute) and isinstance(e.value, _ast.Name) and e.value.id == "self" and (name is None or e.attr == name)
+
+
+def _doc_stripped(body):
+    return [s for s in body if not (isinstance(s, _ast.Expr) and isinstance(s.value, _ast.Constant) and isinstance(s.value.value, str))]
+
+
+def _is_raise_if(s):
+    return isinstance(s, _ast.If) and not s.orelse and len(s.body) == 1 and isinstance(s.body[0], _ast.Raise)
+
+
+def _tcall(e, fn):
+    """T.fn(arg) / tl.fn(arg) -> arg name"""
+    if isinstance(e, _ast.Call) and isinstance(e.func, _ast.Attribute) and e.func.attr == fn and isinstance(e.func.value, _ast.Name) \
+            and e.func.value.id in ("T", "tl") and len(e.args) == 1 and isinstance(e.args[0], _ast.Name) and not e.keywords:
+        return e.args[0].id
+    return None
+
+
+class ShapeExpr:
+    """expressions over the shapes of named arrays: env maps an array name (or 'self.X_shape_') to a Gallina list-nat term;
+    records which arrays are subscripted at [0] (a 0-d array raises there)"""
+
+    def __init__(self, env):
+        self.env, self.need_nonempty = env, []
+
+    def shape_of(self, e):
+        v = _tcall(e, "shape")
+        if v is not None and v in self.env:
+            return self.env[v]
+        if _is_self_attr(e) and ("self." + e.attr) in self.env:
+            return self.env["self." + e.attr]
+        raise Untranslatable("shape expression " + _ast.dump(e)[:80])
+
+    def nat(self, e):
+        if isinstance(e, _ast.Constant) and isinstance(e.value, int) and not isinstance(e.value, bool) and e.value >= 0:
+            return str(e.value)
+        v = _tcall(e, "ndim")
+        if v is not None and v in self.env:
+            return f"(length {self.env[v]})"
+        if isinstance(e, _ast.Subscript) and isinstance(e.slice, _ast.Constant) and e.slice.value == 0:
+            sh = self.shape_of(e.value)
+            self.need_nonempty.append(sh)
+            return f"(nth 0 {sh} 0)"
+        raise Untranslatable("number " + _ast.dump(e)[:80])
+
+    def shp(self, e):
+        if isinstance(e, _ast.Subscript) and isinstance(e.slice, _ast.Slice) and e.slice.upper is None and e.slice.step is None \
+                and isinstance(e.slice.lower, _ast.Constant) and isinstance(e.slice.lower.value, int) and e.slice.lower.value >= 0:
+            return f"(skipn {e.slice.lower.value} {self.shape_of(e.value)})"
+        return self.shape_of(e)
+
+    def boolean(self, e):
+        if isinstance(e, _ast.BoolOp):
+            op = "&&" if isinstance(e.op, _ast.And) else "||"
+            return "(" + f" {op} ".join(self.boolean(v) for v in e.values) + ")"
+        if isinstance(e, _ast.UnaryOp) and isinstance(e.op, _ast.Not):
+            return f"(negb {self.boolean(e.operand)})"
+        if isinstance(e, _ast.Compare) and len(e.ops) == 1:
+            l, r, op = e.left, e.comparators[0], e.ops[0]
+            if isinstance(op, (_ast.In, _ast.NotIn)) and isinstance(r, (_ast.Tuple, _ast.List)) and r.elts:
+                a = self.nat(l)
+                t = "(" + " || ".join(f"Nat.eqb {a} {self.nat(x)}" for x in r.elts) + ")"
+                return t if isinstance(op, _ast.In) else f"(negb {t})"
+            try:
+                a, b = self.nat(l), self.nat(r)
+                f = {_ast.Eq: "(Nat.eqb {a} {b})", _ast.NotEq: "(negb (Nat.eqb {a} {b}))", _ast.Lt: "(Nat.ltb {a} {b})", _ast.LtE: "(Nat.leb {a} {b})",
+                     _ast.Gt: "(Nat.ltb {b} {a})", _ast.GtE: "(Nat.leb {b} {a})"}.get(type(op))
+                if f is None:
+                    raise Untranslatable("comparison " + _ast.dump(op))
+                return f.format(a=a, b=b)
+            except Untranslatable:
+                if isinstance(op, (_ast.Eq, _ast.NotEq)):
+                    t = f"(nl_eqb {self.shp(l)} {self.shp(r)})"
+                    return t if isinstance(op, _ast.Eq) else f"(negb {t})"
+                raise
+        raise Untranslatable("condition " + _ast.dump(e)[:80])
+
+
+def _vector_reshape(s, name):
+    """if T.ndim(Y) == 1: Y = T.reshape(Y, (-1, 1))"""
+    if not (isinstance(s, _ast.If) and not s.orelse and len(s.body) == 1 and isinstance(s.body[0], _ast.Assign)):
+        return False
+    t = s.test
+    if not (isinstance(t, _ast.Compare) and len(t.ops) == 1 and isinstance(t.ops[0], _ast.Eq) and _tcall(t.left, "ndim") == name
+            and isinstance(t.comparators[0], _ast.Constant) and t.comparators[0].value == 1):
+        return False
+    a = s.body[0]
+    v = a.value
+    return (len(a.targets) == 1 and isinstance(a.targets[0], _ast.Name) and a.targets[0].id == name and isinstance(v, _ast.Call)
+            and isinstance(v.func, _ast.Attribute) and v.func.attr == "reshape" and len(v.args) == 2 and isinstance(v.args[0], _ast.Name)
+            and v.args[0].id == name and isinstance(v.args[1], _ast.Tuple) and len(v.args[1].elts) == 2
+            and isinstance(v.args[1].elts[0], _ast.UnaryOp) and isinstance(v.args[1].elts[0].op, _ast.USub)
+            and isinstance(v.args[1].elts[1], _ast.Constant) and v.args[1].elts[1].value == 1)
+
+
+def _self_stores(nodes):
+    out = []
+    for n in nodes:
+        for m in _ast.walk(n):
+            if isinstance(m, (_ast.Assign, _ast.AugAssign, _ast.AnnAssign)):
+                for t in (m.targets if isinstance(m, _ast.Assign) else [m.target]):
+                    for u in _ast.walk(t):
+                        if _is_self_attr(u) and isinstance(u.ctx, _ast.Store):
+                            out.append(u.attr)
+    return out
+
+
+def _ite(conds):
+    out = "false"
+    for c in reversed(conds):
+        out = f"(if {c} then true else {out})"
+    return out
+
+
+def gen_plsr(path):
+    """CP_PLSR: the raise-chain of fit (before any attribute is bound), the vector-Y reshape, the attributes bound before the
+    component loop, the shape checks of predict / transform -> Gallina definitions"""
+    fns = _src_class(path, "CP_PLSR")
+    # ---- fit
+    body = _doc_stripped(fns["fit"].body)
+    args = [a.arg for a in fns["fit"].args.args]
+    if args != ["self", "X", "Y"]:
+        raise Untranslatable("signature of CP_PLSR.fit")
+    loops = [i for i, s in enumerate(body) if isinstance(s, _ast.For)]
+    if len(loops) != 1 or not (isinstance(body[loops[0]].iter, _ast.Call) and getattr(body[loops[0]].iter.func, "id", "") == "range"
+                               and len(body[loops[0]].iter.args) == 1 and _is_self_attr(body[loops[0]].iter.args[0], "n_components")):
+        raise Untranslatable("CP_PLSR.fit: expected exactly one top-level loop `for .. in range(self.n_components)`")
+    pre, loop = body[:loops[0]], body[loops[0]]
+    first_store = next((i for i, s in enumerate(pre) if _self_stores([s])), len(pre))
+    ex = ShapeExpr({"X": "sx", "Y": "sy"})
+    conds, reshaped = [], False
+    for s in pre[:first_store]:
+        if _is_raise_if(s):
+            if reshaped:
+                raise Untranslatable("CP_PLSR.fit: a validation after the vector-Y reshape")
+            conds.append(ex.boolean(s.test))
+        elif _vector_reshape(s, "Y"):
+            reshaped = True
+        elif isinstance(s, _ast.Assign) and all(isinstance(t, (_ast.Name, _ast.Tuple)) for t in s.targets) and \
+                all(isinstance(c, _ast.Call) and isinstance(c.func, _ast.Attribute) and c.func.attr == "copy"
+                    for c in (s.value.elts if isinstance(s.value, _ast.Tuple) else [s.value])):
+            continue                                            # X, Y = T.copy(X), T.copy(Y)
+        else:
+            raise Untranslatable("CP_PLSR.fit prologue statement " + _ast.dump(s)[:80])
+    if any(isinstance(m, _ast.Raise) for s in pre[first_store:] for m in _ast.walk(s)):
+        raise Untranslatable("CP_PLSR.fit: a raise after the first attribute was bound (a rejected fit would modify the object)")
+    if not reshaped:
+        raise Untranslatable("CP_PLSR.fit: the vector-Y reshape was not found before the attributes are bound")
+    guards = sorted(set(ex.need_nonempty))
+    guard = " || ".join(f"(Nat.eqb (length {g}) 0)" for g in guards) or "false"
+    pre_attrs = []
+    for a in _self_stores(pre[first_store:]):
+        if a not in pre_attrs:
+            pre_attrs.append(a)
+    zero_init = []
+    for s in pre[first_store:]:
+        if isinstance(s, _ast.Assign) and len(s.targets) == 1 and _is_self_attr(s.targets[0]):
+            calls = [m for m in _ast.walk(s.value) if isinstance(m, _ast.Call) and isinstance(m.func, _ast.Attribute)]
+            if any(c.func.attr == "zeros" for c in calls) and all(c.func.attr in ("zeros", "context", "shape") for c in calls):
+                zero_init.append(s.targets[0].attr)
+    out = [f"Definition fit_rejects_src (sx sy : list nat) : bool := if {guard} then true else {_ite(conds)}.",
+           "Definition y_matrix_src (sy : list nat) : list nat := if Nat.eqb (length sy) 1 then [nth 0 sy 0; 1] else sy.",
+           "Definition pre_loop_attrs_src : list String.string := [" + "; ".join(f'"{a}"%string' for a in pre_attrs) + "].",
+           "Definition zero_init_attrs_src : list String.string := [" + "; ".join(f'"{a}"%string' for a in zero_init) + "]."]
+    # ---- predict / transform: the per-sample shape check comes first and nothing is bound on self
+    for name in ("predict", "transform"):
+        b = _doc_stripped(fns[name].body)
+        if _self_stores(b):
+            raise Untranslatable(f"CP_PLSR.{name} binds an attribute of self")
+        if not b or not _is_raise_if(b[0]):
+            raise Untranslatable(f"CP_PLSR.{name}: the first statement is not the shape check")
+        e2 = ShapeExpr({"X": "s", "self.X_shape_": "xshape"})
+        out.append(f"Definition {name}_x_rejects_src (xshape s : list nat) : bool := {e2.boolean(b[0].test)}.")
+        if e2.need_nonempty:
+            raise Untranslatable(f"CP_PLSR.{name}: shape check subscripts a shape")
+        loops_n = [s for s in _ast.walk(fns[name]) if isinstance(s, _ast.For)]
+        if not loops_n or not all(isinstance(l.iter, _ast.Call) and getattr(l.iter.func, "id", "") == "range" and len(l.iter.args) == 1
+                                  and _is_self_attr(l.iter.args[0], "n_components") for l in loops_n):
+            raise Untranslatable(f"CP_PLSR.{name}: the component loops do not run over range(self.n_components)")
+    # ---- transform: the Y branch
+    tb = _doc_stripped(fns["transform"].body)
+    ybr = [s for s in tb if isinstance(s, _ast.If) and isinstance(s.test, _ast.Compare) and isinstance(s.test.left, _ast.Name) and s.test.left.id == "Y"
+           and isinstance(s.test.ops[0], _ast.IsNot)]
+    if len(ybr) != 1:
+        raise Untranslatable("CP_PLSR.transform: the `if Y is not None` branch")
+    e3 = ShapeExpr({"Y": "sy", "self.Y_shape_": "yshape"})
+    conds_before, conds_after, reshaped = [], [], False
+    for s in ybr[0].body:
+        if _is_raise_if(s):
+            (conds_after if reshaped else conds_before).append(s.test)
+        elif _vector_reshape(s, "Y"):
+            reshaped = True
+        elif isinstance(s, _ast.For):
+            break
+    if not reshaped or e3.need_nonempty:
+        raise Untranslatable("CP_PLSR.transform: Y validation")
+    cb = [e3.boolean(t) for t in conds_before]
+    e3.env["Y"] = "(y_matrix_src sy)"
+    ca = [e3.boolean(t) for t in conds_after]
+    out.append(f"Definition transform_y_rejects_src (yshape sy : list nat) : bool := {_ite(cb + ca)}.")
+    return "\n".join(out)
+
+
+PLSR_LEMMAS = r'''
+Ltac cases_nat := repeat match goal with
+  | |- context [Nat.eqb ?a ?b] => destruct (Nat.eqb_spec a b)
+  | |- context [Nat.ltb ?a ?b] => destruct (Nat.ltb_spec a b)
+  | |- context [Nat.leb ?a ?b] => destruct (Nat.leb_spec a b)
+  end.
+Lemma fit_rejects_src_ok : forall sx sy, fit_rejects_src sx sy = plsr_fit_rejects sx sy.
+Proof.
+  intros [|nx sx] [|ny sy]; try reflexivity; unfold fit_rejects_src, plsr_fit_rejects; cbn [length nth];
+    cases_nat; cbn; try reflexivity; exfalso; lia.
+Qed.
+Lemma y_matrix_src_ok : forall sy, y_matrix_src sy = y_matrix_shape sy.
+Proof. intros [|n [|m l]]; reflexivity. Qed.
+Lemma skipn1 : forall (l : list nat), skipn 1 l = tl l. Proof. now destruct l. Qed.
+Lemma predict_x_rejects_src_ok : forall xs s, predict_x_rejects_src xs s = plsr_new_x_rejects xs s.
+Proof. intros. unfold predict_x_rejects_src, plsr_new_x_rejects. rewrite ?skipn1. reflexivity. Qed.
+Lemma transform_x_rejects_src_ok : forall xs s, transform_x_rejects_src xs s = plsr_new_x_rejects xs s.
+Proof. intros. unfold transform_x_rejects_src, plsr_new_x_rejects. rewrite ?skipn1. reflexivity. Qed.
+Lemma transform_y_rejects_src_ok : forall ys sy, transform_y_rejects_src ys sy = plsr_new_y_rejects ys sy.
+Proof.
+  intros. unfold transform_y_rejects_src, plsr_new_y_rejects. rewrite ?skipn1, ?y_matrix_src_ok.
+  destruct (nl_eqb (tl ys) (tl (y_matrix_shape sy))); cases_nat; cbn; try reflexivity; exfalso; lia.
+Qed.
+(* every attribute the model's zero state relies on is bound before the component loop, the factor matrices and coef_ as zeros *)
+Lemma pre_loop_attrs_src_ok :
+  forallb (fun a => existsb (String.eqb a) pre_loop_attrs_src) plsr_pre_loop_attrs = true /\
+  forallb (fun a => existsb (String.eqb a) zero_init_attrs_src) ["X_factors"; "Y_factors"; "coef_"]%string = true.
+Proof. split; vm_compute; reflexivity. Qed.
+'''
+
+
+# ---- the regressors' fit loop
+def _name(e, n=None):
+    return isinstance(e, _ast.Name) and (n is None or e.id == n)
+
+
+def _tuple_names(e):
+    if isinstance(e, _ast.Tuple) and all(isinstance(x, _ast.Name) for x in e.elts):
+        return tuple(x.id for x in e.elts)
+    return None
+
+
+def _fexpr(e, env):
+    """float expression of the stopping test -> Gallina over a record of operations"""
+    if isinstance(e, _ast.Name) and e.id in env:
+        return env[e.id]
+    if _is_self_attr(e, "tol"):
+        return "tol"
+    if isinstance(e, _ast.Subscript) and _name(e.value, "norm_W") and isinstance(e.slice, _ast.UnaryOp) and isinstance(e.slice.op, _ast.USub) \
+            and isinstance(e.slice.operand, _ast.Constant) and e.slice.operand.value in (1, 2):
+        return "a" if e.slice.operand.value == 1 else "b"
+    if isinstance(e, _ast.BinOp) and isinstance(e.op, (_ast.Add, _ast.Sub, _ast.Mult, _ast.Div)):
+        f = {_ast.Add: "fadd", _ast.Sub: "fsub", _ast.Mult: "fmul", _ast.Div: "fdiv"}[type(e.op)]
+        return f"({f} Op {_fexpr(e.left, env)} {_fexpr(e.right, env)})"
+    if isinstance(e, _ast.Call) and not e.keywords and len(e.args) == 1 and \
+            ((isinstance(e.func, _ast.Attribute) and e.func.attr == "abs" and _name(e.func.value) and e.func.value.id in ("T", "tl", "np")) or _name(e.func, "abs")):
+        return f"(fabs Op {_fexpr(e.args[0], env)})"
+    raise Untranslatable("float expression " + _ast.dump(e)[:80])
+
+
+def gen_regressor(path, cls, tag, rebuild_fn, vec_fn, blocks_attr):
+    fns = _src_class(path, cls)
+    body = _doc_stripped(fns["fit"].body)
+    loops = [i for i, s in enumerate(body) if isinstance(s, _ast.For) and _name(s.target, "iteration")]
+    if len(loops) != 1:
+        raise Untranslatable(f"{cls}.fit: the `for iteration` loop")
+    k = loops[0]
+    loop = body[k]
+    if not (isinstance(loop.iter, _ast.Call) and _name(loop.iter.func, "range") and len(loop.iter.args) == 1 and _is_self_attr(loop.iter.args[0], "n_iter_max")) or loop.orelse:
+        raise Untranslatable(f"{cls}.fit: the loop does not run over range(self.n_iter_max)")
+    if _self_stores(body[:k + 1]):
+        raise Untranslatable(f"{cls}.fit binds an attribute of self before the end of its loop (a raising fit would modify the object): {_self_stores(body[:k + 1])}")
+    if len(loop.body) < 3:
+        raise Untranslatable(f"{cls}.fit: loop body")
+    rb, ap, chk = loop.body[-3], loop.body[-2], loop.body[-1]
+    # weight_tensor_ = cp_to_tensor((weights, W))
+    if not (isinstance(rb, _ast.Assign) and len(rb.targets) == 1 and _name(rb.targets[0], "weight_tensor_") and isinstance(rb.value, _ast.Call)
+            and _name(rb.value.func, rebuild_fn) and len(rb.value.args) == 1 and _tuple_names(rb.value.args[0])):
+        raise Untranslatable(f"{cls}.fit: `weight_tensor_ = {rebuild_fn}((..))` is not the third-last statement of the pass")
+    blocks = _tuple_names(rb.value.args[0])
+    # the blocks must not be re-assigned after the rebuild
+    # norm_W.append(T.norm(weight_tensor_, 2))
+    v = ap.value if isinstance(ap, _ast.Expr) else None
+    if not (isinstance(v, _ast.Call) and isinstance(v.func, _ast.Attribute) and v.func.attr == "append" and _name(v.func.value, "norm_W") and len(v.args) == 1
+            and isinstance(v.args[0], _ast.Call) and isinstance(v.args[0].func, _ast.Attribute) and v.args[0].func.attr == "norm"
+            and _name(v.args[0].args[0], "weight_tensor_") and len(v.args[0].args) == 2 and isinstance(v.args[0].args[1], _ast.Constant) and v.args[0].args[1].value == 2):
+        raise Untranslatable(f"{cls}.fit: `norm_W.append(T.norm(weight_tensor_, 2))`")
+    # if iteration > 1: weight_evolution = ...; if weight_evolution <= self.tol: ...; break
+    if not (isinstance(chk, _ast.If) and not chk.orelse):
+        raise Untranslatable(f"{cls}.fit: convergence check")
+    gx = ShapeExpr({})
+    t = chk.test
+    if not (isinstance(t, _ast.Compare) and len(t.ops) == 1 and _name(t.left, "iteration") and isinstance(t.comparators[0], _ast.Constant)):
+        raise Untranslatable(f"{cls}.fit: guard of the convergence check")
+    guard = {_ast.Gt: "(Nat.ltb {c} iteration)", _ast.GtE: "(Nat.leb {c} iteration)"}.get(type(t.ops[0]))
+    if guard is None:
+        raise Untranslatable(f"{cls}.fit: guard comparison")
+    guard = guard.format(c=int(t.comparators[0].value))
+    env = {}
+    inner = None
+    for s in chk.body:
+        if isinstance(s, _ast.Assign) and len(s.targets) == 1 and _name(s.targets[0]):
+            env[s.targets[0].id] = _fexpr(s.value, env)
+        elif isinstance(s, _ast.If) and not s.orelse and inner is None:
+            inner = s
+        else:
+            raise Untranslatable(f"{cls}.fit: statement in the convergence check")
+    if inner is None or not isinstance(inner.body[-1], _ast.Break) or \
+            not all(isinstance(s, _ast.Break) or (isinstance(s, _ast.If) and all(isinstance(x, _ast.Expr) for x in s.body)) or isinstance(s, _ast.Expr) for s in inner.body):
+        raise Untranslatable(f"{cls}.fit: the stopping branch")
+    c = inner.test
+    if not (isinstance(c, _ast.Compare) and len(c.ops) == 1):
+        raise Untranslatable(f"{cls}.fit: the stopping test")
+    l, r = _fexpr(c.left, env), _fexpr(c.comparators[0], env)
+    small = {_ast.LtE: f"fleb Op {l} {r}", _ast.Lt: f"fltb Op {l} {r}", _ast.GtE: f"fleb Op {r} {l}", _ast.Gt: f"fltb Op {r} {l}"}.get(type(c.ops[0]))
+    if small is None:
+        raise Untranslatable(f"{cls}.fit: the stopping comparison")
+    # ---- after the loop
+    post = body[k + 1:]
+    stores = {}
+    for s in post:
+        if isinstance(s, _ast.Return):
+            if not _name(s.value, "self"):
+                raise Untranslatable(f"{cls}.fit does not return self")
+            continue
+        if not (isinstance(s, _ast.Assign) and len(s.targets) == 1 and _is_self_attr(s.targets[0])):
+            raise Untranslatable(f"{cls}.fit: statement after the loop " + _ast.dump(s)[:60])
+        stores[s.targets[0].attr] = s.value
+    need = {"weight_tensor_", blocks_attr, "vec_W_", "n_iterations_", "norm_W_"}
+    if set(stores) != need:
+        raise Untranslatable(f"{cls}.fit binds {sorted(stores)} after the loop, expected {sorted(need)}")
+    if not _name(stores["weight_tensor_"], "weight_tensor_"):
+        raise Untranslatable(f"{cls}.fit: self.weight_tensor_ is not the local of the last pass")
+    if _tuple_names(stores[blocks_attr]) != blocks:
+        raise Untranslatable(f"{cls}.fit: self.{blocks_attr} is not the tuple the weight tensor was rebuilt from")
+    vv = stores["vec_W_"]
+    if not (isinstance(vv, _ast.Call) and _name(vv.func, vec_fn) and len(vv.args) == 1 and _tuple_names(vv.args[0]) == blocks):
+        raise Untranslatable(f"{cls}.fit: self.vec_W_ is not {vec_fn} of the exposed blocks")
+    if not _name(stores["norm_W_"], "norm_W"):
+        raise Untranslatable(f"{cls}.fit: self.norm_W_")
+    ni = stores["n_iterations_"]
+    if isinstance(ni, _ast.BinOp) and isinstance(ni.op, _ast.Add) and _name(ni.left, "iteration") and isinstance(ni.right, _ast.Constant) and isinstance(ni.right.value, int):
+        nit = f"(length norms - 1 + {ni.right.value})"
+    elif _name(ni, "iteration"):
+        nit = "(length norms - 1)"
+    elif isinstance(ni, _ast.Call) and _name(ni.func, "len") and len(ni.args) == 1 and _name(ni.args[0], "norm_W"):
+        nit = "(length norms)"
+    else:
+        raise Untranslatable(f"{cls}.fit: self.n_iterations_")
+    nit_ns = nit.replace('norms', 'ns')
+    return f'''
+Section Src_{tag}.
+Context {{F P : Type}} (Op : fops F).
+Variable sweep : P -> P.
+Variable rebuild : P -> tensor F.
+Variable nrm : tensor F -> F.
+Variable tol : F.
+Definition guard_{tag} (iteration : nat) : bool := {guard}.
+Definition small_{tag} (a b : F) : bool := {small}.
+Fixpoint loop_{tag} (fuel iteration : nat) (w : P) (wt : option (tensor F)) (norms : list F) : P * option (tensor F) * list F :=
+  match fuel with
+  | O => (w, wt, norms)
+  | S k =>
+      let w' := sweep w in
+      let wt' := rebuild w' in
+      let norms' := nrm wt' :: norms in
+      if guard_{tag} iteration && (match norms' with a :: b :: _ => small_{tag} a b | _ => false end)
+      then (w', Some wt', norms')
+      else loop_{tag} k (S iteration) w' (Some wt') norms'
+  end.
+Definition fit_{tag} (n_iter_max : nat) (w0 : P) : res (reg_full (F:=F) (P:=P)) :=
+  match loop_{tag} n_iter_max 0 w0 None [] with
+  | (w, Some wt, norms) => Ok (mkFull (mkReg wt w (tensor_to_vec (rebuild w))) {nit} (rev norms))
+  | (_, None, _) => Err
+  end.
+Lemma loop_{tag}_ok : forall fuel it w wt norms,
+  loop_{tag} fuel it w wt norms = reg_loop sweep rebuild nrm (rel_small Op tol) fuel it w wt norms.
+Proof. induction fuel as [|k IH]; intros; cbn [loop_{tag} reg_loop]; [reflexivity|]. cbv zeta. rewrite IH. reflexivity. Qed.
+Lemma fit_{tag}_ok : forall n w0, fit_{tag} n w0 = reg_fit_full sweep rebuild nrm (rel_small Op tol) n w0.
+Proof.
+  intros n w0. unfold fit_{tag}. rewrite loop_{tag}_ok.
+  pose proof (reg_fit_trace sweep rebuild nrm (rel_small Op tol) w0 n) as T. unfold reg_fit_full in *.
+  destruct (reg_loop sweep rebuild nrm (rel_small Op tol) n 0 w0 None []) as [[w wt] ns]. destruct wt as [t|]; [|reflexivity].
+  specialize (T _ eq_refl). cbv zeta in T. cbn [rf_n_iterations] in T. destruct T as [[T1 _] _].
+  assert (E : {nit_ns} = length ns) by lia. try rewrite E. reflexivity.
+Qed.
+End Src_{tag}.
+'''
+
+
+
+# ---- CPRegressor.predict / TuckerRegressor.predict: the reshape specifications and the composition
+def _nat_pred(e):
+    """naturals of predict: T.ndim(X), T.ndim(self.weight_tensor_), constants, a - b / a + b"""
+    if isinstance(e, _ast.Constant) and isinstance(e.value, int) and not isinstance(e.value, bool) and e.value >= 0:
+        return str(e.value)
+    if isinstance(e, _ast.Call) and isinstance(e.func, _ast.Attribute) and e.func.attr == "ndim" and len(e.args) == 1:
+        a = e.args[0]
+        if _name(a, "X"):
+            return "ndx"
+        if _is_self_attr(a, "weight_tensor_"):
+            return "(length ws)"
+    if isinstance(e, _ast.BinOp) and isinstance(e.op, (_ast.Sub, _ast.Add)):
+        return f"({_nat_pred(e.left)} {'-' if isinstance(e.op, _ast.Sub) else '+'} {_nat_pred(e.right)})"
+    raise Untranslatable("number in predict " + _ast.dump(e)[:80])
+
+
+def _wshape_tail(e):
+    """self.weight_tensor_.shape[k:] -> skipn k ws"""
+    if isinstance(e, _ast.Subscript) and isinstance(e.value, _ast.Attribute) and e.value.attr == "shape" and _is_self_attr(e.value.value, "weight_tensor_") \
+            and isinstance(e.slice, _ast.Slice) and e.slice.upper is None and e.slice.step is None and e.slice.lower is not None:
+        return f"(skipn {_nat_pred(e.slice.lower)} ws)"
+    raise Untranslatable("shape slice in predict " + _ast.dump(e)[:80])
+
+
+def _spec(e):
+    if not isinstance(e, _ast.Tuple):
+        raise Untranslatable("reshape specification " + _ast.dump(e)[:60])
+    parts = []
+    for x in e.elts:
+        if isinstance(x, _ast.UnaryOp) and isinstance(x.op, _ast.USub) and isinstance(x.operand, _ast.Constant) and x.operand.value == 1:
+            parts.append("[None]")
+        elif isinstance(x, _ast.Starred):
+            parts.append(f"map Some {_wshape_tail(x.value)}")
+        elif isinstance(x, _ast.Call) and _name(x.func, "int") and len(x.args) == 1 and isinstance(x.args[0], _ast.Call) and \
+                isinstance(x.args[0].func, _ast.Attribute) and x.args[0].func.attr == "prod" and len(x.args[0].args) == 1:
+            parts.append(f"[Some (prod {_wshape_tail(x.args[0].args[0])})]")
+        else:
+            raise Untranslatable("element of a reshape specification " + _ast.dump(x)[:60])
+    return "(" + " ++ ".join(parts) + ")"
+
+
+def _is_call(e, attr, n):
+    return isinstance(e, _ast.Call) and ((isinstance(e.func, _ast.Attribute) and e.func.attr == attr) or _name(e.func, attr)) and len(e.args) == n and not e.keywords
+
+
+PREDICT_LEMMA = """
+Lemma predict_cp_src_ok : forall (F : Type) (Op : fops F) (W X : tensor F),
+  predict_cp Op W X =
+  rbind (partial_tensor_to_vec (f0 Op) X 1 0) (fun xv =>
+  rbind (reshape_spec (w_spec_src (shape W) (ndim X)) W) (fun wm =>
+  rbind (dot Op xv wm) (fun p => reshape_spec (out_spec_src (shape W) (ndim X)) p))).
+Proof. intros. unfold predict_cp, w_spec_src, out_spec_src, ndim. cbn [app]. reflexivity. Qed.
+"""
+
+
+def gen_predict(cp_path, tk_path):
+    fns = _src_class(cp_path, "CPRegressor")
+    b = _doc_stripped(fns["predict"].body)
+    if _self_stores(b) or not isinstance(b[-1], _ast.Return):
+        raise Untranslatable("CPRegressor.predict")
+    defs = {}
+    for s in b[:-1]:
+        if isinstance(s, _ast.Assign) and len(s.targets) == 1 and _name(s.targets[0]):
+            defs[s.targets[0].id] = _spec(s.value)
+        elif isinstance(s, _ast.If) and len(s.body) == 1 and len(s.orelse) == 1 and all(isinstance(x, _ast.Assign) and len(x.targets) == 1 and _name(x.targets[0]) for x in (s.body[0], s.orelse[0])) \
+                and s.body[0].targets[0].id == s.orelse[0].targets[0].id and isinstance(s.test, _ast.Compare) and len(s.test.ops) == 1:
+            a, c = _nat_pred(s.test.left), _nat_pred(s.test.comparators[0])
+            t = {_ast.Gt: f"Nat.ltb {c} {a}", _ast.GtE: f"Nat.leb {c} {a}", _ast.Lt: f"Nat.ltb {a} {c}", _ast.LtE: f"Nat.leb {a} {c}"}.get(type(s.test.ops[0]))
+            if t is None:
+                raise Untranslatable("comparison in CPRegressor.predict")
+            defs[s.body[0].targets[0].id] = f"(if {t} then {_spec(s.body[0].value)} else {_spec(s.orelse[0].value)})"
+        else:
+            raise Untranslatable("statement of CPRegressor.predict " + _ast.dump(s)[:60])
+    r = b[-1].value          # T.reshape(T.dot(partial_tensor_to_vec(X), T.reshape(self.weight_tensor_, weight_shape)), out_shape)
+    if not (_is_call(r, "reshape", 2) and _name(r.args[1]) and _is_call(r.args[0], "dot", 2) and _is_call(r.args[0].args[0], "partial_tensor_to_vec", 1)
+            and _name(r.args[0].args[0].args[0], "X") and _is_call(r.args[0].args[1], "reshape", 2) and _is_self_attr(r.args[0].args[1].args[0], "weight_tensor_")
+            and _name(r.args[0].args[1].args[1])):
+        raise Untranslatable("CPRegressor.predict: the returned composition")
+    outn, wn = r.args[1].id, r.args[0].args[1].args[1].id
+    if outn not in defs or wn not in defs:
+        raise Untranslatable("CPRegressor.predict: reshape specifications")
+    # TuckerRegressor.predict: T.dot(partial_tensor_to_vec(X), self.vec_W_)
+    tb = _doc_stripped(_src_class(tk_path, "TuckerRegressor")["predict"].body)
+    if not (len(tb) == 1 and isinstance(tb[0], _ast.Return) and _is_call(tb[0].value, "dot", 2) and _is_call(tb[0].value.args[0], "partial_tensor_to_vec", 1)
+            and _name(tb[0].value.args[0].args[0], "X") and _is_self_attr(tb[0].value.args[1], "vec_W_")):
+        raise Untranslatable("TuckerRegressor.predict is not T.dot(partial_tensor_to_vec(X), self.vec_W_)")
+    return (f"\nDefinition out_spec_src (ws : list nat) (ndx : nat) : list (option nat) := {defs[outn]}.\n"
+            f"Definition w_spec_src (ws : list nat) (ndx : nat) : list (option nat) := {defs[wn]}.\n" + PREDICT_LEMMA)
+
+
+SRC_HEADER = '''From Coq Require Import List Arith Bool Lia. From Coq Require String. Import ListNotations.
+From TLV Require Import Base.Shape Base.PyList Base.Tensor Base.Ops Model.Base Model.Regress Model.RegressObj Proofs.RegressProofsObj.
+Import String.StringSyntax. Delimit Scope string_scope with string.
+Open Scope nat_scope.
+(* GENERATED from the TensorLy source by harness/props/C19.py (ast -> Gallina); do not edit *)
+'''
+
+
+def generate_source_file(repo):
+    import os
+    R = os.path.join(repo, "tensorly", "regression")
+    parts = [SRC_HEADER, gen_plsr(os.path.join(R, "cp_plsr.py")), PLSR_LEMMAS,
+             gen_regressor(os.path.join(R, "cp_regression.py"), "CPRegressor", "cp", "cp_to_tensor", "cp_to_vec", "cp_weight_"),
+             gen_regressor(os.path.join(R, "tucker_regression.py"), "TuckerRegressor", "tk", "tucker_to_tensor", "tucker_to_vec", "tucker_weight_"),
+             gen_predict(os.path.join(R, "cp_regression.py"), os.path.join(R, "tucker_regression.py"))]
+    return "\n".join(parts)
+
+
+
+def source_tie(chk):
+    """regenerate the source-derived definitions from the CURRENT tensorly tree and re-check the lemmas tying them to the model.
+    Fails closed: a construct the translator does not cover is a broken tie."""
+    import os, shutil, subprocess
+    d = os.path.join(C.BUILD, "gen", f"C19_{os.getpid()}")
+    os.makedirs(d, exist_ok=True)
+    try:
+        try:
+            text = generate_source_file(C.REPO)
+        except (Untranslatable, KeyError, IndexError, SyntaxError, OSError) as e:
+            chk.broken.append({"what": "source tie corr:C19-source broken: the ast translator does not cover the current source of tensorly/regression (validation chain of CP_PLSR, "
+                                       "attributes bound before its component loop, loop skeleton / stopping test / stored attributes of the regressors)", "detail": f"{type(e).__name__}: {e}"})
+            chk.cov["source_derived_lemmas"] = "untranslatable source"
+            return
+        fn = os.path.join(d, "RegressSrc.v")
+        open(fn, "w").write(text)
+        chk.checker_cmds.append("coqc on generated build/gen/C19_*/RegressSrc.v (tensorly/regression source -> Gallina): fit_rejects_src_ok, y_matrix_src_ok, "
+                                "predict_x_rejects_src_ok, transform_x_rejects_src_ok, transform_y_rejects_src_ok, pre_loop_attrs_src_ok, loop_cp_ok, fit_cp_ok, loop_tk_ok, fit_tk_ok, predict_cp_src_ok")
+        r = None
+        for attempt in range(2):
+            r = subprocess.run(["timeout", "600", "coqc", "-w", "none", "-R", os.path.join(C.COQ, "theories"), "TLV", fn], capture_output=True, text=True, cwd=d)
+            if r.returncode in (0, 1):
+                break
+        if r.returncode == 0:
+            chk.cov["source_derived_lemmas"] = "proved (11 lemmas)"
+        elif r.returncode == 1 and "Error" in (r.stdout + r.stderr):
+            chk.cov["source_derived_lemmas"] = "failed"
+            chk.broken.append({"what": "source tie corr:C19-source broken: a definition regenerated from the current source of tensorly/regression no longer equals the model's "
+                                       "(shape tests of CP_PLSR / stopping test, loop skeleton or stored attributes of the regressors)",
+                               "detail": (r.stdout + r.stderr)[-1500:]})
+        else:
+            chk.cov["source_derived_lemmas"] = f"skipped: coqc rc {r.returncode} (killed / timeout on a loaded machine)"
+    finally:
+        shutil.rmtree(d, ignore_errors=True)
+
+
 # ----------------------------------------------------------------------------- driver
 def describe(p):
     d = {k: v for k, v in p.items() if k not in ("X", "y", "Xn", "c", "d", "_seq", "loop_bad")}
@@ -1023,6 +1583,7 @@ def run(chk):
     chk.axioms = {k: [a for a in v if a != "Axioms"] for k, v in chk.axioms.items()}
     chk.broken = [b for b in chk.broken if not (str(b.get("what", "")).endswith("depends on non-stdlib axioms") and b.get("detail") == ["Axioms"])]
     C.reset_backends()
+    source_tie(chk)
     cases, meta = [], []
     # 1. exact predict cases
     for kind, W, X in z_predict_cases(chk.tier, rng):
